@@ -16,12 +16,13 @@ type c14Step struct {
 	Args []string `json:"args"` // subcommand, options, positionals ({name} = pool file)
 	In   string   `json:"in"`   // pool id piped to stdin
 	Out  bool     `json:"out,omitempty"`
-	Alt  bool     `json:"alt,omitempty"` // the secondary files named in Args hold their partner's content (same path, other content)
-	Ext  string   `json:"ext,omitempty"` // with Out: extension of the -o file (gts derives the output format from .fasta/.gb/.genbank)
-	Sin  int      `json:"sin,omitempty"` // standard input of the cached run: 0 a pipe, 1 a regular file, 2 a regular file positioned behind a line the caller consumed
-	Old  bool     `json:"old,omitempty"` // with Out: the -o file exists before the cached run (and is longer than the output)
-	Inp  bool     `json:"inp,omitempty"` // with Out and Sin == 1: -o names the file standard input is redirected from
-	Aux  bool     `json:"aux,omitempty"` // another invocation sharing the cache directory (gts cache list / purge): run, not compared
+	Alt  bool     `json:"alt,omitempty"`  // the secondary files named in Args hold their partner's content (same path, other content)
+	Ext  string   `json:"ext,omitempty"`  // with Out: extension of the -o file (gts derives the output format from .fasta/.gb/.genbank)
+	Sin  int      `json:"sin,omitempty"`  // standard input of the cached run: 0 a pipe, 1 a regular file, 2 a regular file positioned behind a line the caller consumed
+	Old  bool     `json:"old,omitempty"`  // with Out: the -o file exists before the cached run (and is longer than the output)
+	Inp  bool     `json:"inp,omitempty"`  // with Out and Sin == 1: -o names the file standard input is redirected from
+	Pipe bool     `json:"pipe,omitempty"` // the secondary files named in Args arrive through pipes (/dev/fd/N) in the cached run
+	Aux  bool     `json:"aux,omitempty"`  // another invocation sharing the cache directory (gts cache list / purge): run, not compared
 }
 
 type c14Case struct {
@@ -76,7 +77,7 @@ func c14Check(c c14Case) *Violation {
 		}
 		want := uncached(s)
 		setSecondary(s.Args, s.Alt)
-		got := env.withStdin(s.Sin).withStale(s.Old).withInPlace(s.inPlace()).run(expandArgs(s.Args), pool[s.In], s.Out, s.Ext)
+		got := env.withStdin(s.Sin).withStale(s.Old).withInPlace(s.inPlace()).withPiped(s.Pipe).run(expandArgs(s.Args), pool[s.In], s.Out, s.Ext)
 		hist := []string{}
 		for _, p := range c.Steps[:i+1] {
 			hist = append(hist, fmt.Sprintf("[gts %q < %s out=%v%s alt=%v stdin=%s]", p.Args, p.In, p.Out, p.Ext, p.Alt, []string{"pipe", "file", "file-at-offset"}[mod(p.Sin, 3)]))
@@ -150,6 +151,9 @@ func c14Classify(c c14Case) (bool, []string) {
 		}
 		if s.inPlace() {
 			labels = append(labels, "-o-is-stdin-file")
+		}
+		if s.Pipe {
+			labels = append(labels, "secondary-through-pipe")
 		}
 		if s.Sin > 0 {
 			labels = append(labels, "stdin:"+[]string{"pipe", "file", "file-at-offset"}[mod(s.Sin, 3)])
@@ -247,6 +251,7 @@ func c14Gen(t *rapid.T) c14Case {
 		st.Alt = rapid.IntRange(0, 3).Draw(t, "alt") == 0
 		st.Sin = rapid.SampledFrom([]int{0, 0, 0, 1, 2}).Draw(t, "sin")
 		st.Inp = rapid.IntRange(0, 2).Draw(t, "inp") == 0
+		st.Pipe = rapid.IntRange(0, 3).Draw(t, "pipe") == 0
 		if st.Out {
 			st.Old = rapid.Bool().Draw(t, "old")
 			st.Ext = rapid.SampledFrom([]string{"", "", ".fasta", ".gb", ".genbank", ".txt", ".gb.fasta", ".fasta.gb", ".genbank.fasta", ".fastq.gb", ".3.fasta", ".fasta.txt", ".embl.genbank"}).Draw(t, "ext")
@@ -281,6 +286,9 @@ func TestC14(t *testing.T) {
 		}
 		for _, a := range vars {
 			sa := func(in string, out bool) c14Step { return c14Step{Args: append([]string{cmd}, a...), In: in, Out: out} }
+			spipe := func(in string, alt bool) c14Step {
+				return c14Step{Args: append([]string{cmd}, a...), In: in, Alt: alt, Pipe: true}
+			}
 			sinp := func(in string) c14Step {
 				return c14Step{Args: append([]string{cmd}, a...), In: in, Out: true, Sin: 1, Inp: true, Ext: ".gb"}
 			}
@@ -310,6 +318,7 @@ func TestC14(t *testing.T) {
 				{Steps: []c14Step{ssin("small", 2), sa("small", false), ssin("two", 1), ssin("small", 1)}},
 				{Steps: []c14Step{sold("small"), sold("small"), sa("small", false), sold("small")}},
 				{Steps: []c14Step{sinp("small"), sinp("two"), sa("two", false), sinp("two")}},
+				{Steps: []c14Step{spipe("small", false), spipe("small", true), spipe("small", false), sa("small", false)}},
 				{Steps: []c14Step{sa("two", false), ssin("two", 2), ssin("big", 2), sa("big", false)}},
 			} {
 				if !e.try(c) {
